@@ -1,6 +1,9 @@
 """Profiles (TLC model configurations) and per-property checks."""
 from __future__ import annotations
 
+import json
+import os
+
 MODEL_PROPS = ["MetaAgree", "ObsPure", "HeapAppendOnly", "RowPreserving", "MutateFrame", "FilterSliceSubseq", "SummarizeRows", "ArrangePermutes"]
 
 # index into SrcTables (1-based): 1 t1, 2 t2 (join partner), 3 t3 (union partner), 4 t4 empty, 5 t5 single row,
@@ -36,6 +39,7 @@ PROFILES = {
     "ref4": prof2("MovesRef", 4, [[1, 2]]),
     "reroot3": prof2("MovesReroot", 3, [[1, 1], [6, 6]], overrides=dict(Moves="MovesReroot", SrcHeaps="SrcHeapsOne")),
     "reroot4": prof2("MovesReroot", 4, [[1, 1]], overrides=dict(Moves="MovesReroot", SrcHeaps="SrcHeapsOne")),
+    "collectg4": prof2("MovesCollectG", 4, [[1, 1], [6, 6]], overrides=dict(Moves="MovesCollectG", SrcHeaps="SrcHeapsOne")),
     "rerootagg5": prof2("MovesRerootAgg", 5, [[1, 1], [6, 6]], overrides=dict(Moves="MovesRerootAgg", SrcHeaps="SrcHeapsOne")),
     "equiv1": prof2("MovesEquiv", 1, [[1, 2], [1, 3], [6, 2], [4, 2], [5, 3]], invariants=["EquivHolds", "ScopeWF"]),
     "equiv2": prof2("MovesEquiv", 2, [[1, 2], [1, 3], [6, 2], [4, 2], [7, 3]], invariants=["EquivHolds", "ScopeWF"]),
@@ -79,12 +83,15 @@ CHECKS = {
     # development aid (not registered in MANIFEST.json): the simulation profile alone
     "XSIM": dict(level="model_checking", clauses={"cross-names", "cross-rows", "cross-order", "accept", "export-error", "names", "rows", "order", "group"},
                  phases=dict(quick=[dict(profile="mixsim", num=3200)], thorough=[dict(profile="mixsim")])),
+    # development aid (not registered): VERIF_DEV_PHASES='[{"profile": "joinz4"}]' ./check XDEV
+    "XDEV": dict(level="model_checking", clauses=GEN_CLAUSES_SPEC | CROSS | {"errclass", "accept", "export-error", "target", "meta", "getname", "equiv", "dtype-static", "dtype-export"},
+                 phases=dict(quick=json.loads(os.environ.get("VERIF_DEV_PHASES", "[]")), thorough=[])),
     "C01": dict(
         level="model_checking",
         clauses=CROSS | {"accept", "export-error"},
         phases=dict(quick=[dict(profile="core2"), dict(profile="agg3"), dict(profile="wins3"), dict(profile="win2"),
-                           dict(profile="join2"), dict(profile="joins3"), dict(profile="union2"), dict(profile="tall2"), dict(profile="hidsub4")],
-                    thorough=[dict(profile="hidsub4"), dict(profile="core3"), dict(profile="agg3"), dict(profile="win3"), dict(profile="wins4"),
+                           dict(profile="join2"), dict(profile="joins3"), dict(profile="union2"), dict(profile="tall2"), dict(profile="hidsub4"), dict(profile="fn1")],
+                    thorough=[dict(profile="hidsub4"), dict(profile="fn1"), dict(profile="fn2"), dict(profile="str1"), dict(profile="cast1"), dict(profile="ty2"), dict(profile="core3"), dict(profile="agg3"), dict(profile="win3"), dict(profile="wins4"),
                               dict(profile="join3"), dict(profile="joins4"), dict(profile="union3"), dict(profile="tall2")]),
     ),
     "C06": dict(
@@ -115,8 +122,8 @@ CHECKS = {
     "C03": dict(
         level="model_checking",
         clauses={"rows", "order", "names", "accept", "export-error", "cross-rows"},
-        phases=dict(quick=[dict(kind="laws"), dict(kind="proofs"), dict(profile="fn1", opts=dict(pool=True)), dict(profile="fn1", opts=dict(alt=True))],
-                    thorough=[dict(kind="laws"), dict(kind="proofs"), dict(profile="fn1", opts=dict(pool=True)), dict(profile="fn1", opts=dict(alt=True)), dict(profile="fn2", opts=dict(pool=True)), dict(profile="fn2", opts=dict(alt=True))]),
+        phases=dict(quick=[dict(kind="laws"), dict(kind="proofs"), dict(profile="fn1", opts=dict(pool=True)), dict(profile="fn1", opts=dict(alt=True)), dict(profile="str1")],
+                    thorough=[dict(kind="laws"), dict(kind="proofs"), dict(profile="fn1", opts=dict(pool=True)), dict(profile="fn1", opts=dict(alt=True)), dict(profile="fn2", opts=dict(pool=True)), dict(profile="fn2", opts=dict(alt=True)), dict(profile="str1")]),
     ),
     "C17": dict(
         level="model_checking",
@@ -159,32 +166,33 @@ CHECKS = {
         level="exploration",
         clauses={"dialect-internal", "dialect-noselect", "dialect-nondet", "impl-internal"},
         phases=dict(quick=[dict(kind="impls", max_arity=2),
-                           dict(profile="core2", backends=("sqlite", "postgres", "mssql")),
-                           dict(profile="agg3", backends=("sqlite", "postgres", "mssql")),
-                           dict(profile="wins3", backends=("sqlite", "postgres", "mssql")),
-                           dict(profile="join2", backends=("sqlite", "postgres", "mssql")),
-                           dict(profile="union2", backends=("sqlite", "postgres", "mssql"))],
-                    thorough=[dict(profile="wins3", backends=("sqlite", "postgres", "mssql")), dict(kind="impls", max_arity=2),
-                              dict(profile="core3", backends=("sqlite", "postgres", "mssql")),
-                              dict(profile="agg3", backends=("sqlite", "postgres", "mssql")),
-                              dict(profile="win3", backends=("sqlite", "postgres", "mssql")),
-                              dict(profile="ty2", backends=("sqlite", "postgres", "mssql")),
-                              dict(profile="fn1", backends=("sqlite", "postgres", "mssql")),
-                              dict(profile="str1", backends=("sqlite", "postgres", "mssql")),
-                              dict(profile="cast1", backends=("sqlite", "postgres", "mssql")),
-                              dict(profile="join3", backends=("sqlite", "postgres", "mssql")),
-                              dict(profile="union3", backends=("sqlite", "postgres", "mssql"))]),
+                           dict(profile="core2", backends=("sqlite", "postgres", "mssql"), opts=dict(buildq=True)),
+                           dict(profile="agg3", backends=("sqlite", "postgres", "mssql"), opts=dict(buildq=True)),
+                           dict(profile="wins3", backends=("sqlite", "postgres", "mssql"), opts=dict(buildq=True)),
+                           dict(profile="join2", backends=("sqlite", "postgres", "mssql"), opts=dict(buildq=True)),
+                           dict(profile="union2", backends=("sqlite", "postgres", "mssql"), opts=dict(buildq=True)),
+                           dict(profile="fn1", backends=("sqlite", "postgres", "mssql"), opts=dict(buildq=True))],
+                    thorough=[dict(profile="wins3", backends=("sqlite", "postgres", "mssql"), opts=dict(buildq=True)), dict(kind="impls", max_arity=2),
+                              dict(profile="core3", backends=("sqlite", "postgres", "mssql"), opts=dict(buildq=True)),
+                              dict(profile="agg3", backends=("sqlite", "postgres", "mssql"), opts=dict(buildq=True)),
+                              dict(profile="win3", backends=("sqlite", "postgres", "mssql"), opts=dict(buildq=True)),
+                              dict(profile="ty2", backends=("sqlite", "postgres", "mssql"), opts=dict(buildq=True)),
+                              dict(profile="fn1", backends=("sqlite", "postgres", "mssql"), opts=dict(buildq=True)),
+                              dict(profile="str1", backends=("sqlite", "postgres", "mssql"), opts=dict(buildq=True)),
+                              dict(profile="cast1", backends=("sqlite", "postgres", "mssql"), opts=dict(buildq=True)),
+                              dict(profile="join3", backends=("sqlite", "postgres", "mssql"), opts=dict(buildq=True)),
+                              dict(profile="union3", backends=("sqlite", "postgres", "mssql"), opts=dict(buildq=True))]),
     ),
     "C20": dict(
         level="model_checking",
         clauses={"target", "dtype-roundtrip", "roundtrip-data"},
-        phases=dict(quick=[dict(profile="ty2", opts=dict(roundtrip=True, targets=True)), dict(profile="core2", opts=dict(targets=True))],
+        phases=dict(quick=[dict(profile="ty2", opts=dict(roundtrip=True, targets=True)), dict(profile="core2", opts=dict(targets=True)), dict(profile="join2", opts=dict(targets=True))],
                     thorough=[dict(profile="ty2", opts=dict(roundtrip=True, targets=True)), dict(profile="core2", opts=dict(roundtrip=True, targets=True)),
                               dict(profile="agg3", opts=dict(roundtrip=True, targets=True)), dict(profile="join2", opts=dict(targets=True))]),
     ),
     "C13": dict(
         level="model_checking",
-        clauses={"resolve", "resolve-internal", "resolve-order", "sized-uniform", "const-accepted"},
+        clauses={"resolve", "resolve-internal", "resolve-order", "sized-uniform", "const-accepted", "const-result"},
         phases=dict(quick=[dict(kind="resolve", max_arity=2)], thorough=[dict(kind="resolve", max_arity=3, timeout=6000)]),
         rule="every (operator, argument-type tuple) over the 48-type universe up to the arity bound: TLC evaluates the order-free definition on the "
              "extracted catalogue, the code's Operator.return_type / ColFn construction outcome is compared tuple by tuple; distinct = distinct tuples",
@@ -204,8 +212,8 @@ CHECKS = {
     "C16": dict(
         level="model_checking",
         clauses=GEN_CLAUSES_SPEC | {"errclass", "getname"},
-        phases=dict(quick=[dict(profile="reroot3"), dict(profile="rerootagg5"), dict(profile="hidsub4")],
-                    thorough=[dict(profile="reroot3"), dict(profile="reroot4"), dict(profile="rerootagg5"), dict(profile="hidsub4")]),
+        phases=dict(quick=[dict(profile="reroot3"), dict(profile="rerootagg5"), dict(profile="collectg4"), dict(profile="hidsub4")],
+                    thorough=[dict(profile="reroot3"), dict(profile="reroot4"), dict(profile="rerootagg5"), dict(profile="collectg4"), dict(profile="hidsub4")]),
     ),
     "C10": dict(
         level="model_checking",
